@@ -122,3 +122,48 @@ func Mutate(t *rapid.T, text string) string {
 		return string(rs[:i]) + string(r) + string(rs[i+1:])
 	}
 }
+
+// Frags is the 16-fragment alphabet of the exhaustive text enumerations.
+var Frags = []string{"a", "pattern", " ", "\n", "\t", "\r", ";", "{", "}", "\"", "'", "\\", "+", "/", "*", "n"}
+
+// EnumTexts emits every concatenation of 1..maxL fragments that belongs to
+// the shard (texts are assigned by their first two fragments; one-fragment
+// texts go to shard 0). It returns false if emit stopped the enumeration.
+func EnumTexts(maxL, shard, shards int, emit func(string) bool) bool {
+	ok := true
+	var rec func(prefix string, l int)
+	rec = func(prefix string, l int) {
+		if !ok {
+			return
+		}
+		if !emit(prefix) {
+			ok = false
+			return
+		}
+		if l == maxL {
+			return
+		}
+		for _, f := range Frags {
+			rec(prefix+f, l+1)
+		}
+	}
+	idx := 0
+	for _, f := range Frags {
+		if shard == 0 && !emit(f) {
+			return false
+		}
+		if maxL < 2 {
+			continue
+		}
+		for _, g := range Frags {
+			idx++
+			if idx%shards == shard {
+				rec(f+g, 2)
+				if !ok {
+					return false
+				}
+			}
+		}
+	}
+	return ok
+}
